@@ -1,5 +1,5 @@
 From Coq Require Import ZArith List ExtrOcamlBasic.
-From SqfVerif Require Import PP.Spec PP.Tracker.
+From SqfVerif Require Import PP.Spec PP.Tracker PP.FramePos.
 Extraction Language OCaml.
 Extraction "../ocaml/gen/pp_model.ml" preprocess render as_is repaired reported find_prov recognises tk_init
-  read lex blex parse_directive itrack.
+  read lex blex parse_directive itrack fdiag fafter.
